@@ -183,8 +183,14 @@ int main(int argc, char** argv) {
     }, nullptr});
     S.push_back({"isend/irecv/wait_all/iprobe", 2, "ok", [](int rank, std::vector<std::string>& msgs) {
         mpi::communicator c; int a = 0, b = 0;
-        if (rank == 0) { mpi::request r[2] = {c.isend(1, 1, 10), c.isend(1, 2, 20)}; mpi::wait_all(r, r + 2); }
+        int v1 = 10, v2 = 20;   // send buffers must stay alive until the requests complete (a temporary would not)
+        if (rank == 0) { mpi::request r[2] = {c.isend(1, 1, v1), c.isend(1, 2, v2)}; mpi::wait_all(r, r + 2); }
         else { while (!c.iprobe(0, 2)) {} mpi::request r[2] = {c.irecv(0, 2, b), c.irecv(0, 1, a)}; mpi::wait_all(r, r + 2); CHECK(a == 10 && b == 20); }
+    }, nullptr});
+    S.push_back({"isend buffer kept until completion", 2, "ok", [](int rank, std::vector<std::string>& msgs) {
+        mpi::communicator c; int v[3] = {7, 8, 9}, b[3] = {0, 0, 0};
+        if (rank == 0) { mpi::request r = c.isend(1, 0, v, 3); r.wait(); v[0] = -1; }   // modified only after completion: receiver must see 7
+        else { c.recv(0, 0, b, 3); CHECK(b[0] == 7 && b[2] == 9); }
     }, nullptr});
     S.push_back({"ping-pong forever hits step budget", 2, "step-budget", [](int rank, std::vector<std::string>& msgs) {
         mpi::communicator c; int x = 0; for (;;) { if (rank == 0) { c.send(1, 0, x); c.recv(1, 0, x); } else { c.recv(0, 0, x); c.send(0, 0, x); } }
